@@ -62,6 +62,96 @@ let config_of (sc : scen) : config =
     clients = List.map (List.filter_map cop_of) sc.cls;
     mainops = List.filter_map cop_of sc.mops }
 
+(* ---------------------------------------------------------------- object roles
+   The harness names no private member of ThreadPool: in the raw trace the pool's mutex, condition variables and atomics carry
+   ids in order of first use (schedule dependent); only the harness' own rendezvous mutex / cv are fixed (raw m0 / c0).  The
+   roles are identified from the trace:
+     pool mutex     = the mutex that is not m0
+     cv "jobs"      = the cv notified right after the lock of an enqueue() (ENQ note, L, notify), else the cv a worker thread
+                      (id 1..W) waits on, else the cv notified right after a store (terminate()/destructor);  cv "finished" = the other
+     terminate_     = the atomic that is stored to;  idle_ = incremented just before a wait-begin (or loaded by idle()/has_idle());
+     busy_          = incremented just before the unlock / job start;  done_ = the remaining incremented atomic (or loaded by done())
+   Canonical names afterwards: m0 pool mutex, c0 jobs, c1 finished, a0 busy_, a1 idle_, a2 done_, a3 terminate_, m1 / c2 harness. *)
+let normalise (sc : scen) (raw : string array) : string array =
+  let n = Array.length raw in
+  let parts = Array.map (split ':') raw in
+  let tid_of i = match parts.(i) with t :: _ -> (try int_of_string t with _ -> -1) | [] -> -1 in
+  let next_same = Array.make n (-1) and prev_same = Array.make n (-1) in
+  let last = Hashtbl.create 8 in
+  for i = 0 to n - 1 do
+    let t = tid_of i in
+    (match Hashtbl.find_opt last t with Some j -> prev_same.(i) <- j; next_same.(j) <- i | None -> ());
+    Hashtbl.replace last t i
+  done;
+  let is_atomic i = match parts.(i) with _ :: ("AL" | "AS" | "AR" | "AC") :: _ -> true | _ -> false in
+  let rec next_visible i = let j = next_same.(i) in if j < 0 then -1 else if is_atomic j then next_visible j else j in
+  let kind i = if i < 0 then [] else (match parts.(i) with _ :: r -> r | [] -> []) in
+  let poolm = ref "" in
+  Array.iter (function _ :: ("L" | "U") :: m :: _ when m <> "m0" && !poolm = "" -> poolm := m | _ -> ()) parts;
+  (* condition variables *)
+  let r3 = ref "" and r1 = ref "" and r2 = ref "" and r6 = ref "" and cvs = ref [] in
+  for i = 0 to n - 1 do
+    (match kind i with
+     | ("N1" | "NA") :: c :: _ when c <> "c0" ->
+       if not (List.mem c !cvs) then cvs := c :: !cvs;
+       let p1 = prev_same.(i) in let p2 = if p1 >= 0 then prev_same.(p1) else -1 in
+       (match kind p1, kind p2 with
+        | "L" :: _, "US" :: "ENQ" :: _ -> if !r3 = "" then r3 := c
+        | "AS" :: _, _ -> if !r6 = "" then r6 := c
+        | _ -> ())
+     | "WB" :: c :: _ when c <> "c0" ->
+       if not (List.mem c !cvs) then cvs := c :: !cvs;
+       let t = tid_of i in
+       if t >= 1 && t <= sc.w then (if !r1 = "" then r1 := c) else (if !r2 = "" then r2 := c)
+     | _ -> ())
+  done;
+  let other c = match List.filter (fun x -> x <> c) !cvs with [x] -> x | _ -> "" in
+  let cj = if !r3 <> "" then !r3 else if !r1 <> "" then !r1 else if !r6 <> "" then !r6 else if !r2 <> "" then other !r2 else "" in
+  let cf = if cj <> "" then other cj else !r2 in
+  (* atomics *)
+  let role = Hashtbl.create 8 in
+  let set a r = if not (Hashtbl.mem role a) && not (Hashtbl.fold (fun _ v acc -> acc || v = r) role false) then Hashtbl.replace role a r in
+  let atoms = ref [] in
+  Array.iter (function _ :: ("AL" | "AS" | "AR") :: a :: _ -> if not (List.mem a !atoms) then atoms := !atoms @ [a] | _ -> ()) parts;
+  Array.iter (function _ :: "AS" :: a :: _ -> set a "a3" | _ -> ()) parts;
+  for i = 0 to n - 1 do
+    (match kind i with
+     | ["AR"; a; o; nn] when (try int_of_string nn = int_of_string o + 1 with _ -> false) ->
+       (match kind (next_visible i) with
+        | "WB" :: _ -> set a "a1"
+        | "U" :: _ | "US" :: "JS" :: _ -> set a "a0"
+        | _ -> ())
+     | ["AL"; a; _] ->
+       (match kind next_same.(i) with
+        | "US" :: ("IDLE" | "HAS") :: _ -> set a "a1"
+        | "US" :: "DONE" :: _ -> set a "a2"
+        | _ -> ())
+     | _ -> ())
+  done;
+  (* done_: an incremented atomic that is neither busy_ nor idle_ *)
+  Array.iter (function [_; "AR"; a; o; nn] when (try int_of_string nn = int_of_string o + 1 with _ -> false) -> if not (Hashtbl.mem role a) then set a "a2" | _ -> ()) parts;
+  (* fallbacks from the predicates of the waiters: loop_until_empty loads busy_, loop_until_terminate loads terminate_ then busy_ *)
+  for i = 0 to n - 1 do
+    (match kind i with
+     | ["AL"; a; _] when not (Hashtbl.mem role a) ->
+       let p1 = prev_same.(i) in let p2 = if p1 >= 0 then prev_same.(p1) else -1 in
+       (match kind p1, kind p2 with
+        | "L" :: _, "US" :: "LE" :: _ -> set a "a0"
+        | "L" :: _, "US" :: "LT" :: _ -> set a "a3"
+        | _ -> ())
+     | _ -> ())
+  done;
+  List.iter (fun a -> if not (Hashtbl.mem role a) then set a "a3") !atoms;     (* only loaded, never stored in this (truncated) run *)
+  let ren_m m = if m = "m0" then "m1" else if m = !poolm then "m0" else "m?" ^ m in
+  let ren_c c = if c = "c0" then "c2" else if c = cj then "c0" else if c = cf then "c1" else "c?" ^ c in
+  let ren_a a = match Hashtbl.find_opt role a with Some r -> r | None -> "a?" ^ a in
+  Array.map (fun p -> String.concat ":" (match p with
+      | t :: (("L" | "U" | "TL") as k) :: m :: r -> t :: k :: ren_m m :: r
+      | t :: (("WB" | "WE") as k) :: c :: m :: r -> t :: k :: ren_c c :: ren_m m :: r
+      | t :: (("N1" | "NA") as k) :: c :: r -> t :: k :: ren_c c :: r
+      | t :: (("AL" | "AS" | "AR" | "AC") as k) :: a :: r -> t :: k :: ren_a a :: r
+      | p -> p)) parts
+
 (* ---------------------------------------------------------------- events *)
 exception Unparsable of string
 let big = 100000
@@ -118,9 +208,11 @@ let events_of (toks : string array) : (int * int * action) list =
           | ["US"; "LT"; a; _] -> Some (Ev (EUser (ULT, nat_arg a)))
           | ["US"; "TERM"; a; _] -> Some (Ev (EUser (UTERM, nat_arg a)))
           | ["US"; "WD"; a; _] -> Some (Ev (EUser (UWD, nat_arg a)))
-          | ["US"; ("CD" | "IT" | "SZ" | "THR"); _; _] | ["Y"] -> None
+          | ["US"; ("CD" | "IT" | "SZ" | "THR" | "DONE"); _; _] | ["Y"] -> None
           | _ -> raise (Unparsable tok)
-          with Unparsable _ -> raise (Unparsable tok)) in
+          with Unparsable _ ->
+            (* an atomic whose role could not be identified (or with an out-of-range value): internal step, skipped *)
+            (match rest with ("AL" | "AS" | "AR" | "AC") :: _ -> None | _ -> raise (Unparsable tok))) in
        (match e with Some e -> out := (!i, t, e) :: !out | None -> ())
      | [] -> ());
     incr i
@@ -137,12 +229,12 @@ type dstate = {
   mutable jsby : (int * int) list;       (* job -> thread that ran it *)
   mutable cd : int list;                 (* jobs whose closure token has been destroyed *)
   mutable holder : int;                  (* thread holding mutex_ (-1 = free), from the L/U/WB/WE events *)
-  mutable busyv : int;
+  mutable busyv : int; mutable idlev : int; mutable pops : int; mutable terms : bool;
   mutable its : (int * int) list         (* worker thread -> argument of its InitThread hook call *)
 }
 let direct_check (sc : scen) (toks : string array) : dstate =
   let d = { pend = []; enq = []; js = []; je = []; donev = 0; termd = false; lers = 0; bad = []; lastcall = [];
-            jsby = []; cd = []; holder = -1; busyv = 0; its = [] } in
+            jsby = []; cd = []; holder = -1; busyv = 0; idlev = 0; pops = 0; terms = false; its = [] } in
   let locked_before = Hashtbl.create 8 in
   let enqcount = Hashtbl.create 16 in
   Array.iter (fun tok -> match split ':' tok with
@@ -163,7 +255,9 @@ let direct_check (sc : scen) (toks : string array) : dstate =
     | tid :: "WE" :: _ :: "m0" :: _ -> d.holder <- int_of_string tid
     | [_; "US"; "WD"; a; _] ->
       if not (List.mem (int_of_string a) d.je) then flag (Printf.sprintf "rendezvous on job %s returned before that job's body ended (token %d)" a idx)
-    | [_; "AR"; "a0"; _; nn] -> d.busyv <- int_of_string nn
+    | [_; "AR"; "a0"; o; nn] -> d.busyv <- int_of_string nn; if int_of_string nn = int_of_string o + 1 then d.pops <- d.pops + 1
+    | [_; "AR"; "a1"; _; nn] -> d.idlev <- int_of_string nn
+    | [_; "AS"; "a3"; "1"] -> d.terms <- true
     | [tid; "US"; "CD"; a; _] ->
       let t = int_of_string tid and j = int_of_string a in
       if List.mem j d.cd then flag (Printf.sprintf "closure of job %d destroyed twice (token %d)" j idx);
@@ -186,6 +280,10 @@ let direct_check (sc : scen) (toks : string array) : dstate =
       (match (if idx > 0 then split ':' toks.(idx - 1) else []) with
        | [tid2; "AL"; "a1"; v] when tid2 = tid -> if (a = "1") <> (int_of_string v <> 0) then flag (Printf.sprintf "has_idle() = %s but idle_ = %s" a v)
        | _ -> flag "has_idle() did not load idle_")
+    | [tid; "US"; "DONE"; a; _] ->
+      (match (if idx > 0 then split ':' toks.(idx - 1) else []) with
+       | [tid2; "AL"; "a2"; v] when tid2 = tid -> if a <> v then flag (Printf.sprintf "done() = %s but done_ = %s" a v)
+       | _ -> ())
     | [tid; "US"; "IDLE"; a; _] ->
       (match (if idx > 0 then split ':' toks.(idx - 1) else []) with
        | [tid2; "AL"; "a1"; v] when tid2 = tid -> if a <> v then flag (Printf.sprintf "idle() = %s but idle_ = %s" a v)
@@ -290,24 +388,48 @@ let () =
             else begin
               let trace = if is_ok then String.sub impl 3 (String.length impl - 3)
                 else (match find_sub impl " TRACE " with Some j -> String.sub impl (j + 7) (String.length impl - j - 7) | None -> "") in
-              let toks = Array.of_list (nonempty (split ' ' trace)) in
+              let toks = normalise sc (Array.of_list (nonempty (split ' ' trace))) in
               let b = Buffer.create 256 in
               (* (1) model replay *)
               let st = ref (init cfg) in
               let verdict = ref "accept" in
-              let nev = ref 0 and nspur = ref 0 in
+              let nev = ref 0 and nspur = ref 0 and ntau_ins = ref 0 and ntau_skip = ref 0 and nobs_diff = ref 0 in
               if has_cont sc then verdict := "skipped"     (* enqueue from a closure destructor: outside the LTS's job language *)
               else
               (try
                  let evs = events_of toks in
+                 (* WEAK simulation: loads / stores / read-modify-writes of the bookkeeping atomics are internal (tau) steps.
+                    An observed atomic event is applied to the model if it is exactly the thread's next model step (same value),
+                    otherwise it is skipped; a visible event (lock, unlock, wait-begin/-end, notify, spawn/join/end, user events)
+                    that the model does not accept yet is retried after letting the model perform the thread's own pending atomic
+                    steps (values read from the model state).  The decisions (queue empty? busy == 0? terminate?) are thus taken
+                    by the model and validated by the next visible event of the real trace. *)
+                 let is_tau = function EAL _ | EAS _ | EAR _ -> true | _ -> false in
+                 let rec with_taus t e k =
+                   match lstep_gen cfg fx sc.sp !st (nat_of_int t, e) with
+                   | Some s' -> Some s'
+                   | None ->
+                     if k = 0 then None else
+                       let ts = get (!st).thr (nat_of_int t) in
+                       let taus = List.filter is_tau (cands cfg (!st).shr ts) in
+                       let rec first = function
+                         | [] -> None
+                         | c :: r -> (match lstep_gen cfg fx sc.sp !st (nat_of_int t, c) with Some s' -> Some s' | None -> first r) in
+                       (match first taus with
+                        | Some s' -> st := s'; incr ntau_ins; with_taus t e (k - 1)
+                        | None -> None) in
                  (try List.iter (fun (idx, t, a) ->
                       match a with
-                      | ObsIdle v ->
-                        if v <> int_of_nat (!st).shr.idle then (verdict := Printf.sprintf "reject@%d:%s(model-idle=%d)" idx toks.(idx) (int_of_nat (!st).shr.idle); raise Exit)
+                      | ObsIdle v -> if v <> int_of_nat (!st).shr.idle then incr nobs_diff
+                      | Ev e when is_tau e ->
+                        (match lstep_gen cfg fx sc.sp !st (nat_of_int t, e) with
+                         | Some s' -> st := s'; incr nev
+                         | None -> incr ntau_skip)
                       | Ev e ->
-                        match lstep_gen cfg fx sc.sp !st (nat_of_int t, e) with
-                        | Some s' -> st := s'; incr nev; (match e with EWE (_, true) -> incr nspur | _ -> ())
-                        | None -> verdict := Printf.sprintf "reject@%d:%s" idx toks.(idx); raise Exit) evs
+                        let saved = !st in
+                        (match with_taus t e 8 with
+                         | Some s' -> st := s'; incr nev; (match e with EWE (_, true) -> incr nspur | _ -> ())
+                         | None -> st := saved; verdict := Printf.sprintf "reject@%d:%s" idx toks.(idx); raise Exit)) evs
                   with Exit -> ())
                with Unparsable tok -> verdict := "unparsable:" ^ tok);
               Buffer.add_string b (Printf.sprintf "%s model=%s" (if is_ok then "OK" else "DEADLOCK") !verdict);
@@ -328,12 +450,15 @@ let () =
               end else begin
                 (* (2) rest state *)
                 let why = field impl "DEADLOCK" "STATE" in
-                let state = List.filter_map (fun kv -> match split '=' kv with [k; v] -> (try Some (k, int_of_string v) with _ -> None) | _ -> None)
-                    (nonempty (split ' ' (field impl "STATE" "THREADS"))) in
+                (* component state of the real pool at the rest state, derived from its own trace (no private member is read):
+                   counters = last value written, queue length = pushes - pops (a pop goes with the increment of busy_) *)
+                let state = [ ("jobs", List.length d.enq - d.pops); ("busy", d.busyv); ("idle", d.idlev); ("done", d.donev);
+                              ("term", if d.terms then 1 else 0) ] in
                 let threads = List.filter_map (fun s -> match split ':' s with
                     | [a; bb; c; dd] -> Some (int_of_string a, int_of_string bb, int_of_string c, int_of_string dd) | _ -> None)
                     (nonempty (split ',' (field impl "THREADS" "CHOICES"))) in
-                Buffer.add_string b (Printf.sprintf " %s rest_impl=%s" why (impl_rest toks d state threads));
+                Buffer.add_string b (Printf.sprintf " %s rest_impl=%s implstate=%s" why (impl_rest toks d state threads)
+                                       (String.concat "," (List.map (fun (k, v) -> Printf.sprintf "%s:%d" k v) state)));
                 if !verdict = "accept" then begin
                   let s = !st in
                   let ms = [ ("jobs", List.length s.shr.queue); ("busy", int_of_nat s.shr.busy); ("idle", int_of_nat s.shr.idle);
@@ -343,7 +468,8 @@ let () =
                                          (if quiescentb cfg fx sc.sp s then 1 else 0) (model_rest s))
                 end
               end;
-              Buffer.add_string b (Printf.sprintf " ev=%d spur=%d jobs=%d lers=%d term=%d" !nev !nspur (List.length d.js) d.lers (if d.termd then 1 else 0));
+              Buffer.add_string b (Printf.sprintf " ev=%d spur=%d jobs=%d lers=%d term=%d tauins=%d tauskip=%d obsdiff=%d" !nev !nspur (List.length d.js) d.lers
+                                     (if d.termd then 1 else 0) !ntau_ins !ntau_skip !nobs_diff);
               print_endline (Buffer.contents b)
             end
           with Failure m -> print_endline ("DRIVER-ERROR " ^ m) | Not_found -> print_endline "DRIVER-ERROR not_found")
